@@ -29,6 +29,7 @@ import (
 //   gs SyncGroup   go OffsetFetch   gh/<member> Heartbeat   gc OffsetCommit   gl/<member> LeaveGroup
 //   co/<n> cc/<n> coordinator connection n opened / closed   bo/<n> bc/<n> broker connection n dialled / closed by the client
 //   fq  Fetch request reached the broker
+//   lq  the ListOffsets request that follows an out-of-range Fetch reached the broker (never answered)
 //   lk/<n> library goroutines still alive at the end   oc/<n> connections still open at the end
 //   to/<c> call c had to return (its context was cancelled, or Close had returned) and was still blocked after the watchdog bound
 // ---------------------------------------------------------------------------------------------------------------
@@ -73,6 +74,8 @@ type rcfg struct {
 	// reads again), so that four connections cover the four placements
 	offNth, offConns int
 	offCode          int16
+	offHangNth       int           // plain reader: the n-th ListOffsets request of the scenario is never answered (1, 2: initialize's readOffsets; 3, 4: its Seek)
+	oorThenSilent    bool          // plain reader: the first Fetch is answered OFFSET_OUT_OF_RANGE, the ListOffsets that follows it is never answered
 	watch            bool          // group paths: WatchPartitionChanges (one more goroutine per generation, polling the coordinator)
 	lagEvery         time.Duration // plain reader: ReadLagInterval (the lag monitor goroutine dials its own connections)
 }
@@ -97,6 +100,11 @@ type rscenario struct {
 	hbs      int
 	holdJoin chan struct{}
 	offCalls map[int]int
+	// closeBound, when set, replaces the watchdog bound for Close in finish(): a scenario whose Close has to wait for a
+	// network deadline fixed in the library (the fetcher's 10 s around readOffsets)
+	closeBound time.Duration
+	oorSent    int32
+	offTotal   int32
 	member   string
 	lastMsg  kafka.Message
 	gotMsg   bool
@@ -275,6 +283,14 @@ func newRScenario(cfg rcfg) *rscenario {
 	}
 	s.br = &Broker{FetchMax: 2, Topic: "t",
 		OnOffset: func(conn int, ts int64) (int64, int16) {
+			if cfg.offHangNth > 0 && int(atomic.AddInt32(&s.offTotal, 1)) == cfg.offHangNth {
+				s.rec.add("lq")
+				return 0, OffsetHang
+			}
+			if cfg.oorThenSilent && atomic.LoadInt32(&s.oorSent) == 1 {
+				s.rec.add("lq") // the ListOffsets after the out-of-range Fetch arrived; it is never answered
+				return 0, OffsetHang
+			}
 			if cfg.offNth > 0 && conn <= cfg.offConns {
 				s.mu.Lock()
 				if s.offCalls == nil {
@@ -296,6 +312,9 @@ func newRScenario(cfg rcfg) *rscenario {
 			s.rec.add("fq")
 			if cfg.broker == "silent" {
 				return FetchResp{Hang: true}
+			}
+			if cfg.oorThenSilent && atomic.CompareAndSwapInt32(&s.oorSent, 0, 1) {
+				return FetchResp{Err: 1, Hwm: int64(cfg.nmsgs), Cut: -1} // OFFSET_OUT_OF_RANGE
 			}
 			if q.Offset >= int64(cfg.nmsgs) {
 				time.Sleep(time.Duration(q.MaxWaitMs) * time.Millisecond / 2)
@@ -523,6 +542,9 @@ func (s *rscenario) waitTok(prefix string, d time.Duration) bool {
 func (s *rscenario) finish(base int, t0 time.Time) (string, string) {
 	s.closeBegin()
 	deadline := time.Now().Add(watchdog())
+	if s.closeBound > 0 {
+		deadline = time.Now().Add(s.closeBound)
+	}
 	closeState := "ret"
 	select {
 	case <-s.closed:
@@ -680,6 +702,21 @@ func readerScenario(kind int, r *rand.Rand) (string, string) {
 		c3 := s.call("fetch")
 		s.wait(c3, watchdog())
 		return s.finish(base, t0)
+	case 18: // ConsumerGroup over real connections, Timeout 150 ms: the coordinator reads the request of one given step
+		// (silentStep) and never answers it; Close.  Only the deadline timeoutCoordinator arms before every request ends
+		// the call: Close has to return within it (plus the rebalance / session timeout for JoinGroup / SyncGroup).
+		cfg := rcfg{mode: "cg", coord: "ok", coordReal: true, faultAt: silentStep, faultNth: 1, faultKind: -2}
+		s := newRScenario(cfg)
+		c := s.call("next")
+		s.wait(c, 250*time.Millisecond)
+		if silentStep == "heartbeat" {
+			s.waitTok("gh/", 200*time.Millisecond) // the heartbeat that is never answered is on its way
+		}
+		jitter()
+		s.closeBegin()
+		<-waitOr(s.closed)
+		s.wait(c, watchdog())
+		return s.finish(base, t0)
 	case 14: // ConsumerGroup over real connections, Timeout 150 ms: also a coordinator that stops answering at some step
 		cfg := rcfg{mode: "cg", coord: "ok", coordReal: true}
 		if r.Intn(4) > 0 {
@@ -798,12 +835,62 @@ func pickStepReal(r *rand.Rand) string {
 	return []string{"findCoordinator", "joinGroup", "syncGroup", "offsetFetch", "heartbeat", "leaveGroup", "leaveGroup"}[r.Intn(7)]
 }
 
+// the coordinator request that is never answered in scenario kind 18
+var silentStep string
+
 // scenarios with an even number run their group paths with the partition watcher (17 kinds: each kind gets both)
 var curWatch bool
 
 // scenarios with an odd number run their group paths with JoinGroupBackoff 20 s, and a plain reader whose broker is
 // silent or unreachable with ReadBackoffMin = ReadBackoffMax = 20 s
 var curLongBackoff bool
+
+// deadlineFamily: three plain readers side by side, each blocked in one of the fetcher's offsets requests against a
+// broker that read the request and stopped answering (connection kept open), then Close on all of them:
+//   a  the readOffsets that follows a Fetch answered OFFSET_OUT_OF_RANGE (C09-m8)
+//   b  initialize's readOffsets (first ListOffsets of the connection)
+//   c  the offsets check of initialize's Seek (third ListOffsets)
+// A blocked socket read does not observe the cancelled context: the fetcher's only way out is the deadline its
+// readOffsets helper arms (10 s, fixed in the library), so Close has to return shortly after it, connections closed.
+// The three wait for the same 10 s.
+func deadlineFamily(r *rand.Rand) [][2]string {
+	base := libGoroutines()
+	t0 := time.Now()
+	cfgs := []rcfg{
+		{mode: "plain", broker: "ok", nmsgs: 2, oorThenSilent: true},
+		{mode: "plain", broker: "ok", nmsgs: 2, offHangNth: 1},
+		{mode: "plain", broker: "ok", nmsgs: 2, offHangNth: 3},
+	}
+	bound := 13 * time.Second
+	ss := make([]*rscenario, len(cfgs))
+	calls := make([]int, len(cfgs))
+	for i, cfg := range cfgs {
+		ss[i] = newRScenario(cfg)
+		ss[i].closeBound = bound
+		calls[i] = ss[i].call("fetch")
+	}
+	for _, s := range ss {
+		s.waitTok("lq", 2*time.Second)
+	}
+	time.Sleep(time.Duration(r.Intn(30)) * time.Millisecond)
+	for _, s := range ss {
+		s.closeBegin()
+	}
+	limit := time.After(bound)
+	for _, s := range ss {
+		select {
+		case <-s.closed:
+		case <-limit:
+		}
+	}
+	var lines [][2]string
+	for i, s := range ss {
+		s.wait(calls[i], 200*time.Millisecond)
+		op, impl := s.finish(base, t0)
+		lines = append(lines, [2]string{op, impl})
+	}
+	return lines
+}
 
 func waitOr(ch chan struct{}) chan struct{} {
 	out := make(chan struct{})
@@ -840,6 +927,49 @@ func readerPart(seed int64) {
 					fop, fimpl := fetcherTrace(evs)
 					emitSc(n, fop, fimpl)
 				}
+			}
+		}
+	}
+	// every coordinator request once against a coordinator that stops answering exactly there (kind 18)
+	for _, step := range []string{"findCoordinator", "joinGroup", "syncGroup", "offsetFetch", "heartbeat", "leaveGroup"} {
+		n++
+		if tooManyStuck() {
+			return
+		}
+		if only("rclose", n) || only("ftrace", n) {
+			kafka.VerifStart()
+			curWatch, curLongBackoff = false, false
+			silentStep = step
+			op, impl := readerScenario(18, scRand(seed, 2, n))
+			kafka.VerifStop()
+			emitSc(n, op, impl)
+		}
+	}
+	// the deadline family waits for a 10 s deadline fixed in the library: once per quick run, twice per thorough run
+	extra := 1
+	if gen.Thorough() {
+		extra = 2
+	}
+	for i := 0; i < extra; i++ {
+		n++
+		if tooManyStuck() {
+			return
+		}
+		if only("rclose", n) || only("ftrace", n) {
+			kafka.VerifStart()
+			curWatch, curLongBackoff = false, false
+			lines := deadlineFamily(scRand(seed, 2, n))
+			evs := kafka.VerifStop()
+			allRet := true
+			for _, l := range lines {
+				emitSc(n, l[0], l[1])
+				if !strings.Contains(l[1], "close=ret") {
+					allRet = false
+				}
+			}
+			if allRet {
+				fop, fimpl := fetcherTrace(evs)
+				emitSc(n, fop, fimpl)
 			}
 		}
 	}
